@@ -453,3 +453,5 @@ func (g *FG) reachableUnder(l Loc, sigma map[string]bool) (holds bool, known boo
 	}
 	return
 }
+
+func sprintfPtr(o types.Object) string { return fmt.Sprintf("%p", o) }
